@@ -375,6 +375,53 @@ func c09RunTwoPortals(cell c09Cell, firstBinary bool) explore.Result {
 	return res
 }
 
+// c09RunRebind: one portal name bound, executed and bound again with another result-format section, NOT described:
+// the client decodes in the format its own Bind asked for (no codes = text).
+func c09RunRebind(cell c09Cell, first, second []int16, named bool) explore.Result {
+	var res explore.Result
+	res.Outcome = "values"
+	res.Key = fmt.Sprint("rebind", cell.String(), first, second, named)
+	cols := wire.Columns{{Name: "c0", Oid: oid.Oid(cell.OID)}}
+	parse := func(ctx context.Context, q string) (wire.PreparedStatements, error) {
+		return wire.Prepared(wire.NewStatement(func(ctx context.Context, w wire.DataWriter, p []wire.Parameter) error {
+			if err := w.Row([]any{cell.V}); err != nil {
+				return err
+			}
+			return w.Complete("SELECT 1")
+		}, wire.WithColumns(cols))), nil
+	}
+	one, err := harness.StartOne(parse)
+	if err != nil {
+		res.Engine = err.Error()
+		return res
+	}
+	defer one.Stop()
+	one.Step(pgproto.Startup("user", "u"))
+	name := ""
+	if named {
+		name = "p"
+	}
+	out, _ := one.Step(pgproto.Cat(pgproto.Parse("s", "q"), pgproto.Bind(name, "s", nil, nil, first), pgproto.Execute(name, 0),
+		pgproto.Bind(name, "s", nil, nil, second), pgproto.Execute(name, 0), pgproto.Sync()))
+	ms, perr := pgproto.ParseBackend(out)
+	if perr != nil || pgproto.Kinds(ms) != "12DC2DCZ" {
+		res.Fail("reply-sequence", fmt.Sprintf("portal bound twice: reply %q %v", pgproto.Kinds(ms), perr))
+		return res
+	}
+	for i, at := range []int{2, 5} {
+		codes := [][]int16{first, second}[i]
+		f := int16(0)
+		if len(codes) > 0 {
+			f = codes[0]
+		}
+		got, derr := pgproto.DecodeValue(cell.OID, f, ms[at].Row[0])
+		if derr != nil || got != cell.Canon {
+			res.Fail("undecodable-in-announced-format", fmt.Sprintf("Bind number %d of portal %q asked for result formats %v (format %d) but the DataRow field % x of %s decodes to %q (%v) in that format", i+1, name, codes, f, ms[at].Row[0], cell, got, derr))
+		}
+	}
+	return res
+}
+
 // c09RunEarlierMaps: connections that re-register a standard type on THEIR OWN type map (bytea encoded by the text
 // codec) come and go; a connection that changed nothing afterwards still writes its bytea values in the standard
 // encoding of the announced format.
@@ -814,6 +861,25 @@ func c09Enumerate(tier string, emit explore.Emit) {
 					return map[string]any{"value": cell.String(), "first_portal_binary": fb, "second_portal_binary": !fb}
 				},
 				Run: func() explore.Result { return c09RunTwoPortals(cell, fb) }})
+		}
+	}
+	// one portal name bound again with another result-format section (none / text / binary), executed without Describe
+	for _, v := range vals {
+		if v.Type != "int4" && v.Type != "int8" && v.Type != "bool" && v.Type != "float8" {
+			continue
+		}
+		sections := [][]int16{nil, {0}, {1}}
+		for _, a := range sections {
+			for _, b := range sections {
+				for _, named := range []bool{false, true} {
+					cell, a, b, named := c09Cell{v.Type, v.OID, v.Forms[0].Name, v.Forms[0].V, v.Canon}, a, b, named
+					emit(explore.Case{Family: "two-portals", Size: 3,
+						Desc: func() any {
+							return map[string]any{"value": cell.String(), "portal_bound_twice_result_formats": [][]int16{a, b}, "named_portal": named}
+						},
+						Run: func() explore.Result { return c09RunRebind(cell, a, b, named) }})
+				}
+			}
 		}
 	}
 	// multi-column rows: every placement of NULLs, every NULL form
